@@ -58,7 +58,7 @@ func (p *chainPool) all() []*chainInfo {
 }
 
 type job struct {
-	stream string // scn | recipe | recipe-time | recipe-fwd | recipe-pad
+	stream string // scn | recipe | recipe-time | recipe-fwd | recipe-pad | recipe-nil
 	idx    int
 }
 
@@ -73,6 +73,8 @@ func runJob(c *verdict.Ctx, k sink, pool []*chainInfo, j job) {
 		sc = genFwdRecipe(c.Rand("recipe-fwd", j.idx), j.idx, pool)
 	case "recipe-pad":
 		sc = genPadRecipe(c.Rand("recipe-pad", j.idx), j.idx, pool)
+	case "recipe-nil":
+		sc = genNilRecipe(c.Rand("recipe-nil", j.idx), j.idx, pool)
 	default:
 		sc = genScenario(c.Rand("scn", j.idx), j.idx, pool)
 	}
@@ -201,6 +203,13 @@ func jobList(c *verdict.Ctx, race bool) []job {
 	}
 	for i := 0; i < npad; i++ {
 		jobs = append(jobs, job{"recipe-pad", i})
+	}
+	nnil := c.N(144, 2880)
+	if race {
+		nnil = c.N(48, 288)
+	}
+	for i := 0; i < nnil; i++ {
+		jobs = append(jobs, job{"recipe-nil", i})
 	}
 	for i := 0; i < nrand; i++ {
 		jobs = append(jobs, job{"scn", i})
